@@ -47,7 +47,7 @@ CLAIMED = {
             "numerical results of evaluation (values are never computed)", "DESIGN.md §3 C07"),
     "C17": ("constant-table extraction and exhaustive check of the finite tables; interval abstract interpretation over one rune variable; provenance of returned values",
             "escape/e replacement table = exactly & < > \" ' to entities with & first (sequential non-interference, prefix-free); addslashes table with backslash first; escapejs raw set computed from the guarding comparisons = [A-Za-z] space /, every other write is \\uXXXX of the rune just read; urlencode = url.QueryEscape(input); iriencode raw iff in the constant reserved set = specification, else QueryEscape; safe returns its input; striptags is one ReplaceAllString with a constant pattern which, evaluated on all strings up to length 7 over {<,>,a,/,space}, leaves no complete tag",
-            "striptags/removetags (regular-expression semantics)", "DESIGN.md §3 C17"),
+            "what the striptags/removetags patterns do on strings outside the enumerated small alphabets; that iriencode/urlencode output decodes to the input", "DESIGN.md §3 C17"),
     "C10": ("path-guard queries, effect/ownership analysis and SSA shape rules (phi/loop, index expressions) over go/ssa",
             "extends links parent/child only behind the root-level and single-parent tests (error edges) and block registration only behind the duplicate test; compile-time stores to Template fields target only the template under construction or a freshly compiled parent (never a cached/shared one); execution runs the document of the template reached by following parent until nil; the block node walks .child from the root, executes the last definition and hands [0:len-1] to Super, which again takes the last; the executor and its helpers execute no node other than the base document; every executed block definition has `block` bound to its own remaining definitions on every path",
             "the rendered text of an inheritance chain as an observed value", "DESIGN.md §3 C10"),
@@ -71,6 +71,29 @@ CLAIMED = {
             "the number of loader fetches under a concrete schedule", "DESIGN.md §3 C20"),
 }
 
+
+# clauses decided by rules added in the later parts of the build round (hunter round, sections 9 and 13 of DESIGN.md);
+# appended to the "decided" text of the property
+ADDED = {
+    "C01": "reflect hazards beyond kinds: FieldBy* only through FieldByIndexErr (nil embedded pointers), Call only of non-nil functions and only under a deferred recover that returns a panic of the called code as an error, MethodByName never on a nil pointer, interface == only on values shown comparable, MapIndex only with hashable keys; a value never ends up holding itself; template nesting through include/extends/import/ssi is bounded by a constant depth with an error edge at compile and at execution time; the Render* shortcuts do not go through Must",
+    "C02": "needsEscape and Value.String agree on which kinds print caller text; the safe mark belongs to the value it was given to and is reset at every step of a path",
+    "C03": "the freeze flag is set before a template is constructed also when construction goes through unexported helpers (fromFile); every *Template method that takes a Context is an execution entry",
+    "C04": "map keys obtained from reflect are sorted on every path before they are walked; accumulate-then-sort loops over maps are accepted; objects of per-execution types are not kept in package-level variables",
+    "C06": "the conditions that switch verbatim mode are constant patterns which, evaluated on all 299 593 strings of up to 6 items over {{%, %}, space, tab, verbatim, endverbatim, x, -}, accept exactly `{%` blanks* (end)verbatim blanks* `%}` at the position, and the lexer advances by the match; text of a verbatim block is never trimmed",
+    "C07": "and/or are parsed left-associatively, the right operand of `and` never by a level that accepts `or` (one logical level, or `or` over `and`); `%` has a float form (math.Mod under a zero test with an error edge, operands in written order); and/or, comparisons, `in` and not/! yield AsValue(<Go bool>) on every successful path; ^ yields an integer for integers (violated on the pinned tree: known finding, fixture-pinned)",
+    "C08": "the resolver and its helpers refer to no package-level variable that changes after initialisation; the variable-name parser returns to its loop head after every step form; a computed list index is Integer() only of a value for which IsInteger() held; every macro parameter is bound (also omitted ones); the reflect Call may be made by a helper that only wraps it (judged at the helper's call site)",
+    "C09": "ifchanged does not decide by EqualValueTo alone (which answers false for nil and uncomparable values)",
+    "C10": "block.Super renders the parent definition in a child of the calling expression's context; `block` is restored after a nested block",
+    "C12": "the macro-clash test looks at the exported macros of the template Execute was called on; the context-key pattern, evaluated on an exhaustive small alphabet, accepts exactly identifiers that are no keywords; `for` binds every declared loop variable on every path; globals are validated also with a nil context",
+    "C13": "a default expression is evaluated only for a parameter the call omits; a positional argument is bound as the *Value it is; a macro can call itself by its defined name under an import alias",
+    "C14": "a pooled output buffer is not aliased by what is returned; ExecuteWriterUnbuffered stops writing after and returns the first writer error",
+    "C16": "an existing error is completed with a token only as a whole (Token, Line and Column together, only when it has no position); execution errors are built with their token instead of being completed later; Parser.Error falls back to the token the parser remembers; an error that names another source is not given a position (violated on the pinned tree: known finding, pinned by TestMisc)",
+    "C17": "removetags validates each name with a pattern that accepts exactly letter(letter|digit)* (evaluated exhaustively), and returns the input after ONE pass of removal by expression and nothing else (no trimming); escapejs writes \\uXXXX with four digits (surrogate pairs above U+FFFF) and drops nothing; the result of escape is marked safe",
+    "C18": "every float→int conversion of a runtime value is reached only between an upper and a lower constant bound (saturation); a filter that reads its argument only as a number does not branch on the argument's Go kind; padding filters measure the text they write; make sizes are capped",
+    "C19": "filter arguments of the filter tag are resolved at compile time against the registry; a `cycle` value never holds a cycle value",
+    "C20": "the cache is filled by loading the name the caller gave (the same load Debug mode makes), the normalised name being only the key",
+}
+
 NOT_APPLICABLE = {
     "C15": "metamorphic relation between two renderings over all whitespace layouts (string arithmetic of trim cut points and a regex fix-point); no non-brittle structural necessary condition beyond the token-rewrite-at-execution defect, which is decided under C04/C05",
 }
@@ -84,6 +107,8 @@ def main():
     for pid in props:
         if pid in CLAIMED:
             tech, decided, declined, ref = CLAIMED[pid]
+            if pid in ADDED:
+                decided = decided + "; further: " + ADDED[pid]
             checks.append({
                 "property_id": pid,
                 "quick_cmd": f"./bin/pongocheck -property {pid} -tier quick",
@@ -127,6 +152,8 @@ def main():
         g.write("package main\n\n// Code generated by tools/gen_manifest.py; DO NOT EDIT.\n\nfunc init() {\n")
         for pid in sorted(CLAIMED):
             tech, decided, declined, ref = CLAIMED[pid]
+            if pid in ADDED:
+                decided = decided + "; further: " + ADDED[pid]
             g.write("\tpropText[%s] = [2]string{%s, %s}\n" % (json.dumps(pid), json.dumps("Static analysis (" + tech + "), nothing is executed. Decided: " + decided + "."), json.dumps(declined)))
         g.write("}\n")
     with open(os.path.join(ROOT, "MANIFEST.json"), "w") as f:
